@@ -184,6 +184,30 @@ PROPS['C06'] = {
     'assumptions': ['source sets are well formed (one ASPA per customer)'],
 }
 
+PROPS['C03'] = {
+    'level': 'proof',
+    'technique': 'Lean 4 theorems on a model of the generic block chain (canonical form unique, membership, inclusion, trim = '
+                 'intersection, difference, collection of arbitrary block sequences) + differential check with a set-membership '
+                 'oracle over all small block sequences and all pairs of small canonical sets, AS and IP',
+    'claim': 'Lean 4 proofs over an item space [0,M] for every M (2^32-1, 2^128-1): canonical chains are unique per denoted set, so == '
+             'is set equality; contains_item is membership (theorems listed in the evidence; the loop-invariant proofs for '
+             'is_encompassed/trim/difference/from_iter are added as they are completed). Every public operation of AsBlocks / IpBlocks '
+             '(collect in any order, union, intersection, difference, contains, ==, verify_issued refuse/trim/inherit/missing, '
+             'verify_covered, contains_block/intersects_block, asn_count, range->prefix decomposition, text and serde round trips) is '
+             'checked on the implementation against the mathematical set (membership on all block ends +-1) and for canonical form. '
+             'Partial: text of IP addresses (std) and the RFC 3779 DER reader (bcder) are exercised, not modelled.',
+    'note': 'The post-pass merge condition and the saturation of asn_count are regenerated from the sources. One known finding: inverted '
+            'IP ranges in *text* are still accepted (KNOWN_FINDINGS.txt).',
+    'shards': {'quick': 8, 'thorough': 16},
+    'budget': {'quick': 900, 'thorough': 7200},
+    'rule': 'all sequences of <=2 (thorough 3) blocks over an 11/13-point boundary domain (0..6, M-3..M) for AS and IP; 4*10^4 random '
+            'sequences of 3-8 blocks (sorted prefix then unsorted, bridging, duplicates, adjacency); all pairs of canonical sets with <=2 '
+            'blocks over a 7-point domain x 8 operations; random larger pairs; counts at the ends of the space; range->prefix for all '
+            'ranges over 39 boundary points per family + random; hostile text forms.',
+    'trusted_base': ['std IP address text; bcder DER reader; Vec::sort_unstable modelled by insertion sort (order of equal keys irrelevant after the repair)'],
+    'assumptions': ['blocks offered through AsRange::new/AddressRange::new with lower > upper are a caller error (not generated)'],
+}
+
 NOT_APPLICABLE = {
 }
 for _i in range(1, 18):
